@@ -66,8 +66,9 @@ HISTORY_PAIRS = {
 
 
 class Cache:
-    def __init__(self, cls, slot, kind, deps, why):
+    def __init__(self, cls, slot, kind, deps, why, prop=None):
         self.cls, self.slot, self.kind, self.deps, self.why = cls, slot, kind, set(deps), why
+        self.prop = prop or slot  # the property through which the cached value is read
 
     @property
     def name(self):
@@ -113,7 +114,7 @@ def discover(repo):
                     fake = ast.FunctionDef(name="_", args=g.args, body=mf["compute"], decorator_list=[], lineno=g.lineno)
                     deps = self_reads(repo, c, fake) - {mf["slot"]}
                     if deps:
-                        caches.append(Cache(c, mf["slot"], "memo-getter", deps, "memoised in getter %s" % pname))
+                        caches.append(Cache(c, mf["slot"], "memo-getter", deps, "memoised in getter %s" % pname, prop=pname))
     return caches
 
 
@@ -243,6 +244,9 @@ class Walker:
         if value is not None:
             st = self.exprs(value, st, s)
         if isinstance(s, ast.Expr):
+            c_ = s.value
+            if isinstance(c_, ast.Call) and isinstance(c_.func, ast.Attribute) and c_.func.attr == "pop" and norm(c_.func.value) in ("self.__dict__", "vars(self)") and c_.args and isinstance(c_.args[0], ast.Constant) and c_.args[0].value == cache.slot:
+                return self.apply_refresh(st, "full")  # self.__dict__.pop("<slot>", None): the memo is dropped
             return st
         targets = []
         if isinstance(s, ast.Assign):
@@ -468,6 +472,8 @@ class Engine:
         for n in walk_no_nested(fk.fn):
             if isinstance(n, ast.Delete) and any(norm(x) == "self." + cache.slot for x in n.targets):
                 return True
+            if isinstance(n, ast.Call) and isinstance(n.func, ast.Attribute) and n.func.attr == "pop" and norm(n.func.value) in ("self.__dict__", "vars(self)") and n.args and isinstance(n.args[0], ast.Constant) and n.args[0].value == cache.slot:
+                return True
             if isinstance(n, (ast.Assign, ast.AnnAssign)):
                 tg = n.targets if isinstance(n, ast.Assign) else [n.target]
                 if any(norm(x) == "self." + cache.slot for x in tg) and not self.is_self_derived(cache, n):
@@ -490,8 +496,9 @@ def setup(repo, res):
         if slot == "_buffered_polygons":
             c.kind = "mirror"
         caches.append(c)
-    expected = {"TrajectoryPrediction.occupancy_set", "TrafficLightCycle._cycle_init_timesteps", "Lanelet._distance", "Lanelet._inner_distance", "Rectangle._vertices"}
-    have = {c.name for c in caches}
+    # known caches, by the property their value is read through (the backing slot may be spelled any way)
+    expected = {"TrajectoryPrediction.occupancy_set", "TrafficLightCycle.cycle_init_timesteps", "Lanelet.distance", "Lanelet.inner_distance", "Rectangle.vertices"}
+    have = {"%s.%s" % (c.cls.name, c.prop.lstrip("_")) for c in caches} | {"%s.%s" % (c.cls.name, c.slot.lstrip("_")) for c in caches}
     if not expected <= have:
         raise AnalysisError("cache discovery lost known caches: %s" % sorted(expected - have))
     scope = []
